@@ -22,7 +22,7 @@ import (
 
 func c19RealProcess(c *Ctx) {
 	bin := os.Getenv("PIKEMC_REALBIN")
-	alarms := []string{"answers-200", "never-answers", "connection-refused", "answers-500"}
+	alarms := []string{"answers-200", "never-answers", "connection-refused", "answers-500", "starts-with-all-servers-down"}
 	var mine []string
 	for i, a := range alarms {
 		if c.NShards <= 1 || i%c.NShards == c.Shard {
@@ -33,7 +33,7 @@ func c19RealProcess(c *Ctx) {
 		return
 	}
 	st := c.Stat("real-process-recovery", "enumeration")
-	st.Bounds = "pike's own binary, 2 round-robin primaries, alarm receiver in {answers 200, never answers, refuses connections, answers 500}: history {both up, server 0 down, server 0 up again, server 1 down}; after each event (settle <= 20 s) 8 requests"
+	st.Bounds = "pike's own binary, 2 round-robin primaries, alarm receiver in {answers 200, never answers, refuses connections, answers 500}: history {both up, server 0 down, server 0 up again, server 1 down}; and once started while both servers are down, which then come up; after each event (settle <= 20 s) 8 requests"
 	if bin == "" {
 		c.Violation("real-process-recovery", "harness-no-binary", "PIKEMC_REALBIN is not set", nil, nil, nil)
 		return
@@ -96,9 +96,12 @@ func c19RealRun(bin string, base int, alarm string) (string, string) {
 		return "harness-no-free-port", ""
 	}
 	origins := []*c19Origin{{idx: 0, addr: free[0]}, {idx: 1, addr: free[1]}}
+	coldStart := alarm == "starts-with-all-servers-down"
 	for _, o := range origins {
-		if err := o.start(); err != nil {
-			return "harness-origin-listen", err.Error()
+		if !coldStart {
+			if err := o.start(); err != nil {
+				return "harness-origin-listen", err.Error()
+			}
 		}
 		defer o.stop()
 	}
@@ -144,7 +147,9 @@ func c19RealRun(bin string, base int, alarm string) (string, string) {
 	defer func() { cmd.Process.Kill(); cmd.Wait() }()
 	client := &http.Client{Timeout: 5 * time.Second, Transport: &http.Transport{DisableKeepAlives: true}}
 	// burst sends n requests and returns how many each origin answered and how many failed (status >= 400 or no answer)
+	answered5xx := 0 // of the last burst: failures that were an HTTP 5xx answer from pike (not a refused connection)
 	burst := func(n int) (got [2]int, failed int, last string) {
+		answered5xx = 0
 		for i := 0; i < n; i++ {
 			resp, err := client.Get("http://" + pikeAddr + fmt.Sprintf("/r%d", time.Now().UnixNano()))
 			if err != nil {
@@ -161,6 +166,9 @@ func c19RealRun(bin string, base int, alarm string) (string, string) {
 				got[1]++
 			default:
 				failed++
+				if resp.StatusCode >= 500 {
+					answered5xx++
+				}
 				last = fmt.Sprintf("%d %s", resp.StatusCode, strings.TrimSpace(string(b)))
 			}
 		}
@@ -177,6 +185,21 @@ func c19RealRun(bin string, base int, alarm string) (string, string) {
 			}
 		}
 		return false, desc
+	}
+	if coldStart {
+		// no server is up yet: every request must fail promptly with a 5xx; then both come up and traffic resumes by itself
+		if ok, d := settle(func(g [2]int, f int) bool { return f == 8 && answered5xx == 8 }); !ok {
+			return "no-healthy-server-but-not-5xx", "started while both servers are down: " + d
+		}
+		for _, o := range origins {
+			if err := o.start(); err != nil {
+				return "harness-origin-listen", err.Error()
+			}
+		}
+		if ok, d := settle(func(g [2]int, f int) bool { return f == 0 && g[0] == 4 && g[1] == 4 }); !ok {
+			return "traffic-does-not-resume-after-recovery", "pike was started while both servers were down; 20 s after they came up: " + d
+		}
+		return "", ""
 	}
 	if ok, d := settle(func(g [2]int, f int) bool { return f == 0 && g[0] == 4 && g[1] == 4 }); !ok {
 		out, _ := os.ReadFile(filepath.Join(dir, "pike.out"))
